@@ -53,8 +53,8 @@ ASSUMPTIONS = [
     "CATEGORIES at the pinned revision (copied below)",
 ]
 BUDGET = {"quick": 640, "thorough": 15000}
-MIN_LABEL_FRACTION = {"multi-site": 0.35, "mirror-mixed-site": 0.04, "mirror-out": 0.25, "mirror-in": 0.12,
-                      "ext": 0.2, "facility": 0.3, "switch": 0.15, "orders-distinct>=2": 0.6}
+MIN_LABEL_FRACTION = {"multi-site": 0.3, "mirror-mixed-site": 0.05, "mirror-out": 0.2, "mirror-in": 0.15,
+                      "ext": 0.1, "facility": 0.2, "switch": 0.12, "orders-distinct>=2": 0.6}
 
 SITES = ["SITEA", "SITEB", "SITEC"]
 
@@ -71,6 +71,7 @@ MODELS = {
     "FPGA_Xilinx_SN1022": ("FPGA", [("p1", True), ("p2", True)]),
 }
 SWITCH_PORTS = 2
+ASM_ORDERS = 2      # number of creation orders per case for which the serialised model is collected too
 
 # service type -> (min ports, max ports, max sites (None = unlimited), allowed port kinds, dedicated only)
 SVC = {
@@ -123,7 +124,9 @@ PDP_TABLE = {
 RESOURCE_ATTRS = [A_TYPE, A_CPU, A_RAM, A_DISK, A_BW, A_SITE, A_COMP, A_V4EXT, A_V6EXT, A_MIRROR, A_FAC]
 LOG_FIELDS = ["vm_count", "p4_count", "core_count", "nodes", "components", "services", "facilities", "sites"]
 
-SIG_MIRROR_POP = "C11/authz/tally/mirror-site/missing"
+# discriminated signature of the known defect: a mirror site is missing in a creation order in which an in-slice
+# mirror service is stored after an out-of-slice mirror service of the same site (see findings_draft/C11.md)
+SIG_MIRROR_POP = "C11/authz/tally/mirror-site/missing/in-slice-after-out-of-slice-same-site"
 
 
 # ----------------------------------------------------------------------------------------------- generator
@@ -168,7 +171,7 @@ _svc_type = st.sampled_from(["PortMirror"] * 10 + ["FABNetv4Ext"] * 2 + ["FABNet
 @st.composite
 def _svc(draw):
     typ = draw(_svc_type)
-    n = 1 if typ == "PortMirror" else draw(st.integers(1, 3))
+    n = draw(st.integers(SVC[typ][0], SVC[typ][1]))
     return {"type": typ,
             "bw": draw(st.one_of(st.none(), st.sampled_from([1, 5, 10, 25, 100]))),
             "ifs": draw(st.lists(st.integers(0, 7), min_size=n, max_size=n)),
@@ -192,7 +195,7 @@ def _case(draw):
     facs = draw(st.lists(st.fixed_dictionaries({"site": st.integers(0, 2),
                                                 "bw": st.one_of(st.none(), st.sampled_from([1, 10, 100]))}),
                          min_size=0, max_size=draw(st.sampled_from([0, 1, 1, 2, 3]))))
-    svcs = draw(st.lists(_svc(), min_size=draw(st.sampled_from([0, 1, 2, 2, 3])), max_size=5))
+    svcs = draw(st.lists(_svc(), min_size=draw(st.sampled_from([0, 1, 1, 2, 2, 2, 3, 3])), max_size=5))
     nu, ns = len(nodes) + len(facs), len(svcs)
     orders = [{"units": list(range(nu)), "svcs": list(range(ns)), "early": False}]
     orders += draw(st.lists(_order(nu, ns), min_size=1, max_size=draw(st.sampled_from([1, 2, 2, 3, 5]))))
@@ -267,6 +270,20 @@ def _resolve(case):
             s["mirror_port"] = labelset[k % len(labelset)] if (how == "in" and labelset) else f"EXT{k}"
             s["inside"] = s["mirror_port"] in labelset
     return {"nodes": nodes, "facs": facs, "svcs": svcs, "dropped": dropped}
+
+
+def _in_after_out(plan, seq):
+    """Input-shape discriminator: an in-slice mirror service created after an out-of-slice one of the same site."""
+    out_sites = set()
+    for kind, k in seq:
+        if kind != "s" or plan["svcs"][k]["type"] != "PortMirror":
+            continue
+        sv = plan["svcs"][k]
+        if sv["inside"] and sv["site"] in out_sites:
+            return True
+        if not sv["inside"]:
+            out_sites.add(sv["site"])
+    return False
 
 
 def _perm(p, n):
@@ -499,42 +516,49 @@ def run_case(case):
         try:
             t = _build(plan, seq)
             serial = t.serialize()
-            # imported under a fresh graph id into the same store (as test/attribute_collector_test.py does)
-            asm = NetworkXASMFactory.create(NetworkXGraphImporter().import_graph_from_string(graph_string=serial))
         except Exception as e:   # precondition of the property (a valid slice exists) - harness/domain error
-            raise RuntimeError(f"C11 harness: could not build/serialise/import the slice in order {names(seq)}: "
+            raise RuntimeError(f"C11 harness: could not build/serialise the slice in order {names(seq)}: "
                                f"{type(e).__name__}: {e}; case={json.dumps(case, sort_keys=True)}") from e
-        if not isinstance(asm, NetworkxASM):
-            raise RuntimeError("C11 harness: NetworkXASMFactory did not return a NetworkxASM")
         ctx = f"creation order #{oi} {names(seq)}"
         res = {"topo": None, "asm": None, "ltopo": None, "lasm": None}
 
-        # ---- collect: authorization attributes
+        # ---- collect from the validated topology object: authorization attributes, accounting
         az = ResourceAuthZAttributes()
         try:
             az.collect_resource_attributes(source=t)
             res["topo"] = _norm_attrs(az)
         except Exception as e:
             add("C11/authz/collect-topo/raised", f"{type(e).__name__}: {e} [{ctx}]")
-        az2 = ResourceAuthZAttributes()
-        try:
-            az2.collect_resource_attributes(source=asm)
-            res["asm"] = _norm_attrs(az2)
-        except Exception as e:
-            add("C11/authz/collect-asm/raised", f"{type(e).__name__}: {e} [{ctx}]")
-        # ---- collect: accounting
         lc = LogCollector()
         try:
             lc.collect_resource_attributes(source=t)
             res["ltopo"] = _norm_log(lc)
         except Exception as e:
             add("C11/log/collect-topo/raised", f"{type(e).__name__}: {e} [{ctx}]")
-        lc2 = LogCollector()
-        try:
-            lc2.collect_resource_attributes(source=asm)
-            res["lasm"] = _norm_log(lc2)
-        except Exception as e:
-            add("C11/log/collect-asm/raised", f"{type(e).__name__}: {e} [{ctx}]")
+
+        # ---- collect from the serialised model (this path costs 60 % of an order: first ASM_ORDERS orders only)
+        if oi < ASM_ORDERS:
+            try:
+                # imported under a fresh graph id into the same store (as test/attribute_collector_test.py does)
+                asm = NetworkXASMFactory.create(
+                    NetworkXGraphImporter().import_graph_from_string(graph_string=serial))
+            except Exception as e:
+                raise RuntimeError(f"C11 harness: could not import the serialised slice: {type(e).__name__}: {e}; "
+                                   f"case={json.dumps(case, sort_keys=True)}") from e
+            if not isinstance(asm, NetworkxASM):
+                raise RuntimeError("C11 harness: NetworkXASMFactory did not return a NetworkxASM")
+            az2 = ResourceAuthZAttributes()
+            try:
+                az2.collect_resource_attributes(source=asm)
+                res["asm"] = _norm_attrs(az2)
+            except Exception as e:
+                add("C11/authz/collect-asm/raised", f"{type(e).__name__}: {e} [{ctx}]")
+            lc2 = LogCollector()
+            try:
+                lc2.collect_resource_attributes(source=asm)
+                res["lasm"] = _norm_log(lc2)
+            except Exception as e:
+                add("C11/log/collect-asm/raised", f"{type(e).__name__}: {e} [{ctx}]")
         results.append(res)
 
         # ---- clause 1: authorization attributes == direct tally (topology source)
@@ -543,20 +567,29 @@ def run_case(case):
             for k in sorted(got):
                 if k not in RESOURCE_ATTRS:
                     add("C11/authz/tally/unexpected-attribute", f"attribute {k}={got[k]} collected from a slice [{ctx}]")
+            # every expected value is named, nothing is named that is not in the slice (value *sets*: the
+            # statement says "names every ...", the collector documents its lists as stand-ins for sets)
             for attr in (A_TYPE, A_CPU, A_RAM, A_DISK, A_BW, A_COMP, A_FAC, A_V4EXT, A_V6EXT, A_MIRROR):
-                have = Counter(x for x in got.get(attr, []) if x not in (0, None))
-                want = Counter(exp[attr])
-                missing, spurious = want - have, have - want
+                have = {x for x in got.get(attr, []) if x not in (0, None)}
+                want = set(exp[attr])
+                missing, spurious = sorted(want - have, key=str), sorted(have - want, key=str)
                 if missing:
                     tally_failed.add(attr)
-                    add(f"C11/authz/tally/{SHORT[attr]}/missing",
-                        f"{attr}: collected {got.get(attr, 'ABSENT')}, tally of the slice {sorted(exp[attr], key=str)}: "
-                        f"missing {sorted(missing.elements(), key=str)} [{ctx}]")
+                    sig = f"C11/authz/tally/{SHORT[attr]}/missing"
+                    if attr == A_MIRROR and _in_after_out(plan, seq):
+                        sig = SIG_MIRROR_POP
+                    add(sig, f"{attr}: collected {got.get(attr, 'ABSENT')}, tally of the slice "
+                        f"{sorted(want, key=str)}: missing {missing} [{ctx}]")
                 if spurious:
                     tally_failed.add(attr)
                     add(f"C11/authz/tally/{SHORT[attr]}/spurious",
-                        f"{attr}: collected {got.get(attr)}, tally of the slice {sorted(exp[attr], key=str)}: "
-                        f"not in the slice {sorted(spurious.elements(), key=str)} [{ctx}]")
+                        f"{attr}: collected {got.get(attr)}, tally of the slice {sorted(want, key=str)}: "
+                        f"not in the slice {spurious} [{ctx}]")
+            for attr in (A_TYPE, A_FAC, A_V4EXT, A_V6EXT, A_MIRROR):    # set-valued attributes list a value once
+                vals = got.get(attr, [])
+                if len(vals) != len(set(vals)):
+                    tally_failed.add(attr)
+                    add(f"C11/authz/tally/{SHORT[attr]}/repeated", f"{attr}: collected {vals} [{ctx}]")
             have = got.get(A_SITE, [])
             if not node_sites <= set(have):
                 tally_failed.add(A_SITE)
